@@ -73,7 +73,7 @@ pub fn compare(pipe: &Pipe, late: bool, seed: u64) -> (Option<(String, serde_jso
 }
 
 pub fn run(cfg: &Cfg, rep: &mut Report) {
-  let total = cfg.n(60_000, 12_000_000);
+  let total = cfg.n(250_000, 12_000_000);
   let mut gcfg = GenCfg::full(cfg.n(3, 5), cfg.n(8, 14));
   gcfg.sched_pct = 25;
   let mut rng = Rng::new(cfg.seed ^ 0xC18);
